@@ -1153,6 +1153,8 @@ pub fn add_fuzz(id: &str, tier: Tier, seed: u64, out: &mut Outcome) -> bool {
         "C16" | "C17" => 2_000_000,
         // fz_stage runs C13-C15's oracles (quadratic in the number of sub-segments) under ASan: about 50 executions/s
         "C13" | "C14" | "C15" => 60_000,
+        // fz_bool with one of the law oracles (several extra operations per execution): about 100-200 executions/s
+        "C06" | "C07" | "C08" | "C09" => 60_000,
         _ => 300_000,
     });
     match fuzz_campaign(id, runs, seed) {
